@@ -157,7 +157,7 @@ def verify_case(world, entry, case, feas_timeout=400):
                 raise Unsupported(f"cut point `{cut.before}` matches {len(hit)} top-level statements of {entry.qualname}")
             ex.cuts[id(hit[0])] = cut
         opts = case.options()
-        want_self = opts.get("returns_self", False)
+        want_self = opts.get("returns_self", False) or opts.get("returns_param", False)
         outs = list(ex.call_function_source(st, fn, pos, kw, node.lineno, defclass=owner, want_self=want_self))
         pend = ex._raises.pop()
         raises = case.raises(argsd)
